@@ -173,16 +173,23 @@ def run(tier):
     ws = [m for m in T.macros if m["macro"] == "rust" and m["file"].endswith("lr1/codegen/ascent.rs") and m["fn"].endswith("::write_state_fn") and m["fmt"]]
     ws.sort(key=lambda m: m["seq"])
     starts = [i for i, m in enumerate(ws) if re.match(r"^\s*_\s*=>\s*\{\s*$", tu.cooked(m["fmt"]))]
-    rep.floor("wildcard arms in ascent write_state_fn", len(starts), 1)
+    n_arm = 0
     for i in starts:
         arm = []
-        for m in ws[i + 1:]:
+        seen_tok = False
+        for m in ws[i + 1:i + 80]:
+            c = tu.cooked(m["fmt"])
             arm.append(m)
-            if re.match(r"^\s*\}\s*$", tu.cooked(m["fmt"])) and len(m["guards"]) <= len(ws[i]["guards"]):
+            if "UnrecognizedToken" in c:
+                seen_tok = True
+            if "UnrecognizedEof" in c:
                 break
-        errs = [m for m in arm if "return Err(" in tu.cooked(m["fmt"]) or "Err(" in tu.cooked(m["fmt"])]
-        pulls = [m for m in arm if re.search(r"next_token|tokens\.next\(\)", tu.cooked(m["fmt"]))]
-        rep.ob("ascent.error-arm-does-not-pull", "%s (%d templates)" % (tu.short(ws[i]), len(arm)), bool(errs) and not pulls,
-               "the recursive-ascent error arm emits a token pull before returning the error" if pulls else "no error return found in the wildcard arm",
+        if not seen_tok:
+            continue   # a wildcard arm of another match (e.g. the goto match)
+        n_arm += 1
+        pulls = [m for m in arm if re.search(r"next_token|tokens\s*\.\s*next\s*\(", tu.cooked(m["fmt"]))]
+        rep.ob("ascent.error-arm-does-not-pull", "%s (%d templates up to UnrecognizedEof)" % (tu.short(ws[i]), len(arm)), not pulls,
+               "the recursive-ascent error arm emits a token pull before returning the error: %s" % [tu.short(p) for p in pulls],
                key="ascent-error-arm-pulls", file=ws[i]["file"], line=ws[i]["line"], fn=ws[i]["fn"])
+    rep.floor("error arms in ascent write_state_fn", n_arm, 1)
     return rep
